@@ -116,7 +116,7 @@ func failing(obs []report.Obligation) map[string]report.Obligation {
 
 func cmdSelftest(args []string) int {
 	fs := flag.NewFlagSet("selftest", flag.ExitOnError)
-	filter := fs.String("filter", "", "substring of mutant name")
+	filter := fs.String("filter", "", "substrings of mutant names, comma separated")
 	par := fs.Int("j", 6, "parallelism")
 	verbose := fs.Bool("v", false, "")
 	fs.Parse(args)
@@ -140,9 +140,12 @@ func cmdSelftest(args []string) int {
 	var sel []Mutant
 	engineSets := map[string]bool{}
 	for _, m := range muts {
-		if strings.Contains(m.Name, *filter) {
-			sel = append(sel, m)
-			engineSets[m.Engines] = true
+		for _, f := range strings.Split(*filter, ",") {
+			if strings.Contains(m.Name, f) {
+				sel = append(sel, m)
+				engineSets[m.Engines] = true
+				break
+			}
 		}
 	}
 	// baselines per engine set
